@@ -371,9 +371,6 @@ func (d *dm) refreshAndCheck(where string, faulty bool) {
 		e.r.CheckHealth(where)
 	}
 	opts := CheckOpts{Where: where, DirKeys: map[string]bool{}}
-	for _, dir := range d.dirs {
-		opts.DirKeys[dir] = true
-	}
 	if mut != nil {
 		// everything the mutator touched inside the scan window may be seen in either revision
 		opts.TolNames, opts.TolPaths = map[string]bool{}, map[string]bool{}
@@ -420,6 +417,22 @@ func (d *dm) refreshAndCheck(where string, faulty bool) {
 		e.r.Probe("transient_fault_in_refresh")
 	}
 	truth := model.ObserveWith(e.w.FS, d.dirs, e.reg, e.app.Cred, tr.ov)
+	// An error entry keyed by a configured directory is allowed only while the
+	// directory has a problem: in manual mode when it exists but cannot be
+	// scanned, in auto mode also when it is missing (it cannot be watched).
+	// An entry for a healthy directory is a stale entry: its cause is gone.
+	for i, dir := range d.dirs {
+		st := truth.DirState[i]
+		if st == "ok" || (st == "missing" && !d.auto) {
+			continue
+		}
+		opts.DirKeys[dir] = true
+	}
+	if mut != nil {
+		for _, dir := range d.dirs {
+			opts.DirKeys[dir] = true
+		}
+	}
 	var probe []string
 	for q := range truth.Defined() {
 		probe = append(probe, q)
